@@ -9,9 +9,11 @@ CONSTANTS
   DevFlushSkipsLast = FALSE
   DevResizeKeepsOldGdt = FALSE
   DevResizeMovesSoleBackup = FALSE
+  DevBackupSearchIgnoresSs2 = FALSE
 INVARIANT TypeOK
 INVARIANT InvCurrent
 INVARIANT InvBackupSet
 INVARIANT Ss2Shape
 INVARIANT InvRecover
+PROPERTY FsckKeeps
 CHECK_DEADLOCK FALSE
